@@ -305,7 +305,10 @@ def c08_post(results, tier, seed, logdir):
         ref = per["dev"][0].tblocks
         common = set(ref)
         for e in C08_ENGINES:
-            common &= set(per[e][0].tblocks)
+            blocks = set(per[e][0].tblocks)
+            if per[e][0].summaries[0].get("cut_by_budget") and blocks:
+                blocks.discard(max(blocks))  # the block the time budget interrupted is incomplete
+            common &= blocks
         for b in sorted(common):
             hs = {e: per[e][0].tblocks[b] for e in C08_ENGINES}
             blocks_compared += 1
